@@ -599,6 +599,16 @@ func (l *IPFSLog) Join(otherLog iface.IPFSLog, size int) (iface.IPFSLog, error) 
 	mergedHeads := entry.FindHeads(l.heads.Merge(otherHeads))
 
 	for idx, e := range mergedHeads {
+		// A head is one of this log's entries: use the log's own copy of it, which was
+		// verified when it was admitted. The other log's object for the same hash has
+		// not been verified if the entry was already known (it is not a new item).
+		own, ok := l.Entries.Get(e.GetHash().String())
+		if !ok {
+			mergedHeads[idx] = nil
+			continue
+		}
+		mergedHeads[idx] = own
+
 		// notReferencedByNewItems
 		if _, ok := nextsFromNewItems[e.GetHash().String()]; ok {
 			mergedHeads[idx] = nil
